@@ -102,6 +102,12 @@ def agent(ts, d, flavor):
 
 
 def _agent(ts, d, flavor):
+    if flavor == 'flowonly':
+        # a compartment that holds steps only, no process
+        return dict(processes={},
+                    steps={'der': Der({'k': 1}), 'der2': Der2({})},
+                    flow={'der': [], 'der2': [('der',)]},
+                    topology={'der': {'s': ('s',)}, 'der2': {'s': ('s',)}})
     procs = {'grow': Grow({'ts': ts, 'd': d})}
     topo = {'grow': {'s': ('s',)}, 'der': {'s': ('s',)}}
     if flavor == 'flow':
